@@ -153,6 +153,53 @@ def verify_function(job):
 CONTRACT_MODULES = []
 
 
+def _job_main(job, q):
+    q.put(verify_function(job))
+
+
+def run_jobs(jobs, limit):
+    """one process per function under contract, at most 14 at a time, each with a hard wall-clock limit
+    (z3 does not always honour its own timeout; a function that exceeds the limit is *undecided*, never a verdict)"""
+    results = []
+    pending = list(jobs)
+    running = []
+    while pending or running:
+        while pending and len(running) < 14:
+            job = pending.pop(0)
+            q = mp.Queue()
+            p = mp.Process(target=_job_main, args=(job, q))
+            p.start()
+            running.append((job, p, q, time.time()))
+        time.sleep(0.2)
+        still = []
+        for job, p, q, t0 in running:
+            res = None
+            try:
+                res = q.get_nowait()
+            except Exception:
+                pass
+            if res is not None:
+                p.join(5)
+                results.append((jobs.index(job), res))
+            elif not p.is_alive():
+                try:
+                    res = q.get(timeout=2)
+                    results.append((jobs.index(job), res))
+                except Exception:
+                    results.append((jobs.index(job), {"key": job[1], "module": job[0], "obligations": [], "error": "worker died without a result", "unsupported": None}))
+            elif time.time() - t0 > limit:
+                p.terminate()
+                p.join(5)
+                results.append((jobs.index(job), {"key": job[1], "module": job[0], "obligations": [], "error": None, "function": job[1].split("#")[0],
+                                                  "unsupported": "hard time limit of %ds exceeded (solver did not return)" % limit,
+                                                  "file": "?", "lines": [0, 0], "sha256": "", "trusted": [], "wall_s": limit}))
+            else:
+                still.append((job, p, q, t0))
+        running = still
+    results.sort(key=lambda t: t[0])
+    return [r for _, r in results]
+
+
 # ------------------------------------------------------------------------------------ helpers
 def load_known():
     path = os.path.join(ROOT, "KNOWN_FINDINGS.txt")
@@ -243,10 +290,7 @@ def main():
 
     budget = 20.0 if tier == "quick" else 90.0
     jobs = [(m, k, budget, os.path.join(outdir, "vc"), prop) for (m, k) in cfg.DEDUCTIVE if not a.only or a.only in k]
-    results = []
-    if jobs:
-        with mp.Pool(min(14, len(jobs))) as pool:
-            results = pool.map(verify_function, jobs, chunksize=1)
+    results = run_jobs(jobs, 420 if tier == "quick" else 2400)
 
     # ---- expected floor (vacuity / stale contract guard)
     exp_path = os.path.join(ROOT, "contracts", "EXPECTED.json")
